@@ -1,6 +1,7 @@
 """Regenerates MANIFEST.json from the table below (run after adding a property check)."""
 import json
 import os
+import re
 
 HERE = os.path.dirname(os.path.dirname(os.path.abspath(__file__)))
 props = [json.loads(l) for l in open(os.path.join(HERE, "properties.jsonl"))]
@@ -9,7 +10,24 @@ props = [json.loads(l) for l in open(os.path.join(HERE, "properties.jsonl"))]
 CLAIMED = {}
 
 
+def n_theorems(pid):
+    """number of pinned (= audited) theorems of the Props files of a property"""
+    import importlib
+    import sys
+    sys.path.insert(0, HERE)
+    mod = importlib.import_module(f"harness.{pid.lower()}")
+    n = 0
+    for m in [pid] + list(getattr(mod, "EXTRA_PROP_FILES", [])):
+        f = os.path.join(HERE, "lean", "pins", f"PdeVerif.Props.{m}.json")
+        n += len(json.load(open(f))) if os.path.exists(f) else 0
+    return n
+
+
+ADDENDA = {}
+
+
 def claim(pid, category, technique, text, note, ref):
+    text = re.sub(r"\b\d+ theorems", "{n} theorems", text)
     CLAIMED[pid] = (category, technique, text, note, ref)
 
 
@@ -41,8 +59,9 @@ claim("C01", "proof", "Lean 4 theorems (order conditions with explicit remainder
       "vectors of the padded input (numba source semantics, JIT subset, scipy route) and compares it entry by entry with the "
       "model's matrix over exact rationals; a refinement study on smooth fields with all components distinct is the property "
       "monitor and the failing-input search.",
-      COMMON_NOTE + "Partial: theorems quantify over polynomial fields (all coefficients/sizes/positions); general smooth fields "
-      "are validated by the refinement study; numba/scipy code generation is external.", "DESIGN.md section 6, C01")
+      COMMON_NOTE + "Partial: the smooth-field theorems assume global derivative bounds; uniform second order incl. the axis cells "
+      "for axis-regular fields is proved for polynomials and monitored otherwise; numba/scipy code generation is external; two "
+      "known findings (conservative spherical tensor operators in the origin cell).", "DESIGN.md section 6, C01")
 
 claim("C02", "proof", "Lean 4 theorems about the ghost-cell law and its index bookkeeping + model/code differential correspondence",
       "The virtual-point law of every local condition class (value, derivative, mixed incl. the infinite branch, curvature, "
@@ -231,7 +250,7 @@ claim("C06", "proof", "Lean 4 theorems about the steppers (amplification factors
       "fixed stepper = `steps` applications of the one-step map, adaptive loops never end before t_end and overshoot by less "
       "than dt_min (exactly t_end otherwise), global error <= sum of local errors for dissipative problems, adaptive Euler / "
       "Richardson global error <= steps*tol over the reals. The harness compares real fixed-step runs exactly (Rat / Gaussian "
-      "rationals) and adaptive runs bit-exactly with the Float model (accepted/rejected trace, final time, state) on numpy, "
+      "rationals) and adaptive runs with the Float model (accepted/rejected trace, final time, state) on numpy, "
       "numba source semantics and a JIT subset, and monitors end time and global error on the real solvers.",
       COMMON_NOTE + "Partial: for adaptive Runge-Kutta the estimate |5th-4th| is not a bound of the error of the returned "
       "4th-order state, so the literal `steps x tolerance` bound fails by the fifth-order remainder (known finding, narrow "
@@ -280,8 +299,7 @@ claim("C19", "proof", "Lean 4 theorems about the coordinate-system bases, the co
       "(order_inconsistent_cyl, cyl_axial_unit_field_maps_to_azimuthal, ...) next to the partial statement that does hold. The "
       "harness compares coordinate systems, _vector_to_cartesian, field access, products (numpy and compiled) and "
       "interpolate_to_grid conversions with the model and monitors commutation with operators on the real code.",
-      COMMON_NOTE + "Partial: `commutes up to discretisation error` is validated numerically (tolerance 8% of the field scale, "
-      "measured <= 2%); trigonometric functions are parameters (c,s pairs with c^2+s^2=1); tensor conversion exists only in "
+      COMMON_NOTE + "Partial: `commutes up to discretisation error` is validated numerically (derivative-scaled tolerance, see below); trigonometric functions are parameters (c,s pairs with c^2+s^2=1); tensor conversion exists only in "
       "the model (the code raises NotImplementedError); one known finding (cylindrical component order).",
       "DESIGN.md section 6, C19; notes/C19.md")
 
@@ -304,6 +322,83 @@ claim("C04", "proof", "Lean 4 theorems: cache soundness for every history from k
       "ghost cells are excluded (their result is uninitialised memory, outside the property); numba's own caches are external.",
       "DESIGN.md section 6, C04; notes/C04.md")
 
+# corrections and additions after the review round (reviewer reports in notes/review/, repairs in notes/Cxx.md)
+ADDENDA.update({
+ "C01": "Now {n} theorems in all: Props/C01Smooth(B).lean lift EVERY operator and output component (all grids, central and "
+        "one-sided variants, conservative and plain) from polynomials to all sufficiently smooth real fields by Taylor's theorem "
+        "with explicit constants, with uniform bounds at any fixed distance from the axis and the cylindrical vector-Laplacian "
+        "exception proved sharp; Props/C01Axis.lean holds kernel-checked witnesses that two conservative spherical tensor "
+        "operators are NOT second order in the cell adjoining the origin (known findings; the `uniformly over all cells` clause "
+        "is monitored on axis-regular fields over all cells on every run); Props/C01Nine.lean covers the documented 9-point "
+        "Laplacian (corner-point setter, exact on cubics for isotropic spacing, inconsistent for anisotropic spacing as the code "
+        "warns). Distances are measured from the axis r = 0, so grids with a hole are judged in every cell.",
+ "C04": "After the review the cache theorems are composed with key faithfulness through observable projections "
+        "(make_operator_cache_sound, make_operator_events_sound), the exact-value text of numbers is proved injective on all "
+        "dyadics, the heap model carries the compile-time copy of compiled rates, histories share argument objects and use twin "
+        "grids of different classes, and one-sided crashes are failures.",
+ "C05": "Props/C01Nine.lean adds conservation of the 9-point Laplacian for every n x m incl. the corner points (this found and "
+        "pins the repaired periodic-y corner defect). The simulation leg varies solver options, boundary conditions of the "
+        "non-conserved operators, multi-field PDEs and both backends.",
+ "C06": "Correction: adaptive runs are compared with the Float model at max(1e-9, 1e-14/tolerance) relative, not bit-exactly. "
+        "After the review: model-independent stage-time and quadrature monitors for the adaptive solvers (these found the "
+        "adaptive-Euler stage-time defect and the end-time overshoot, both repaired in /repo), the literal clause `ends exactly "
+        "at t_end` is monitored, converged => distance bound and contraction => termination are proved for the implicit and "
+        "Crank-Nicolson iterations; known findings: RKF45 and complex-rate step doubling (estimate is not a bound).",
+ "C07": "After the review: state-dependent equations u' = a u (+ t) and a post-step-hook equation with all five fixed-step "
+        "solvers on numpy, numba source and JIT, tracked runs compared bit-identically with the tracker-free run (solver state "
+        "such as the Adams-Bashforth history must survive interrupts: solver_state_survives_interrupts, "
+        "observed_run_eq_unobserved). `initial state untouched` is a monitor (every cell, dtype, label, ghost cells, aliasing); the "
+        "theorem about it is definitional (_partial).",
+ "C08": "After the review the monitors judge the literal clauses (floor(T/D)+1 frames on whole ranges, the extra frame at the "
+        "final time, exactly-at-it for every tracker of adaptive runs); four narrow known corners of the controller's tolerance "
+        "semantics are registered, each recognised from the data of the failing run; the adaptive theorems are _partial "
+        "(single tracker, fixed tolerance).",
+ "C09": "After the review: gap j >= d f^(j+1) is proved over whole histories (runLog_gaps), and the geometric schedule is "
+        "modelled as the code computes it (log/ceil/pow with the float logarithm as an oracle within tolerance; "
+        "geometric_code_schedule, linked to the specification model by geomCode_exact_is_least); constant lattices are checked "
+        "exactly for dyadic parameters. Known finding: periods below the float spacing at t are absorbed.",
+ "C10": "After the review: nine classes (ReactionDiffusionPDE added), 3-d grids, the driver evaluates rhsValue / rhsValuePde "
+        "(the definitions of the theorems), the bc_ops look-up is modelled in Lean, the literal class-vs-expression monitor runs "
+        "under inhomogeneous conditions (this found the grouped-Laplacian texts of two classes, repaired in /repo). torch/jax "
+        "backends and complex states are not covered.",
+ "C11": "Correction: the tolerance is fixed (1e-9) and the conditioning analysis decides which points are compared. After the "
+        "review: numba source-semantics routes for every program besides the JIT subset, erf/floor/ceiling in the grammar (erf "
+        "against libm checked with mpmath), derivative references from mpmath, signature checking and user functions have "
+        "theorems; refusals of functions outside the grammar are counted, not judged.",
+ "C12": "After the review: every leg records its concrete inputs and replays exactly them; per-axis tolerances; axis scales "
+        "2^-100..2^100; theorems for cell<->Cartesian round trips, containment in all coordinate systems and period shifts in "
+        "grid and cell coordinates.",
+ "C13": "After the review: whole runs are proved to apply the documented update with array number j at step j "
+        "(run_*_documented); every converged semi-implicit case is judged; crashes on valid cases are failures. Reading of the "
+        "statement: the semi-implicit solver adds the noise increment only (interpretation drift is claimed for euler and "
+        "milstein); bit-for-bit reproducibility is a correspondence result (external generators).",
+ "C14": "After the review: every constructor, from_state and copy are proved to return Valid objects, so the round-trip "
+        "theorems apply to every reachable grid (constructed_grid_roundtrips, restored_grid_roundtrips); pickle, axes names and "
+        "the JSON text of floats are monitored only.",
+ "C15": "After the review: `data` is a live view for all histories (DataLive invariant), operators/derived fields are model "
+        "operations with freshness theorems, half of the workers use the numba backend on every grid class; known finding: a "
+        "component view taken before its field is handed to FieldCollection(copy_fields=False) is detached.",
+ "C16": "After the review: the value and conservation theorems hold for the real clipping parameter 0 <= eps <= 1/2 with explicit "
+        "error terms (Props/C16Eps.lean), bc-mode interpolation has an independent padded reference incl. corners (ghost layer "
+        "NaN-filled before each call), compiled and source runs are compared, complex and integer data are generated (found the "
+        "integer-dtype truncation, repaired); known finding: the imposed condition is not met in corner squares (the corner ghost "
+        "cell is defined as the mean of its neighbours).",
+ "C17": "After the review: anti-periodic axes in every stream (found the dropped flip_sign at the seam, repaired in /repo), the "
+        "exchange step is modelled and compared bit for bit, every node runs the real BoundariesList.set_ghost_cells in its own "
+        "thread with a blocking mailbox, np.linspace chunk sizes are modelled bit-exactly at Float with the contract proved for "
+        "every cut sequence double rounding can produce; two known findings (curvature on one-cell chunks, face-varying values).",
+ "C19": "Correction: the commutation tolerance is 0.04 S + H2 D3 (S, D3 sizes of first/third derivatives over all components; "
+        "measured <= 0.28 of it on 12,000 clean cases, wrong component orders exceed 2.6 times it). After the review: commutation "
+        "with divergence and gradient is proved over the reals for arbitrary differentiable profiles off the axis (polar, "
+        "spherical incl. the azimuthal component, cylindrical for the contraction by axis name); the polynomial theorems are "
+        "_partial; the order used by the operators is tied to C01's stencil model; the label defect of named components was "
+        "repaired in /repo.",
+ "C20": "After the review: the monitor has its own acceptance predicate (valid operations must succeed), values carry 30-37 "
+        "significant bits and frame dtypes are checked over 72 dtype combinations (found the read-narrows-to-template defect, "
+        "repaired), unsorted times are no longer a hard tie on numpy's internal search, composed world-level theorems for reads, "
+        "items, slices and views.",
+})
+
 # properties not (yet) decided by the machinery
 NOT_APPLICABLE = {}
 
@@ -315,6 +410,7 @@ def main():
         if pid not in CLAIMED:
             continue
         cat, tech, text, note, ref = CLAIMED[pid]
+        text = (text + " " + ADDENDA.get(pid, "")).strip().replace("{n}", str(n_theorems(pid)))
         checks.append({
             "property_id": pid,
             "quick_cmd": f"./check {pid} --tier quick",
